@@ -50,7 +50,7 @@ claim('C12', 'proof',
       'For the generated closest-point kernels of segments, rays, infinite lines (2D/3D), planes, '
       'line-plane pairs and arcs: the result lies on the object, minimises the squared distance '
       'over the whole object (convexity argument, all inputs), is zero exactly for queries on '
-      'the object and is non-expansive; distances are 1-Lipschitz under the sqrt laws.',
+      'the object and is non-expansive; distances are 1-Lipschitz under the sqrt laws. '
       'Model/PolyDistance: edge distance = sqrt of the minimum over the whole outline, invariant '
       'under start vertex and reversal, 1-Lipschitz; distance_to_point is 0 where the crossing '
       'test says inside; the signed cell distance of polylabel is 1-Lipschitz across the outline '
